@@ -81,6 +81,47 @@ func c03Trees(leaves []string) []string {
 	return out
 }
 
+// c03TreesSep: every binary tree over the leaves joined by sep, with explicit parentheses around every inner node.
+func c03TreesSep(leaves []string, sep string) []string {
+	if len(leaves) == 1 {
+		return []string{leaves[0]}
+	}
+	var out []string
+	for cut := 1; cut < len(leaves); cut++ {
+		for _, a := range c03TreesSep(leaves[:cut], sep) {
+			for _, b := range c03TreesSep(leaves[cut:], sep) {
+				out = append(out, "("+a+sep+b+")")
+			}
+		}
+	}
+	return out
+}
+
+// VH_C03_disj: every parenthesisation of a disjunction of 3..4 alternatives of which one (position by case split) is
+// an if-then C -> T (so that, wherever it is the left operand of a ;, it forms an if-then-else with what is on its
+// right), in 3 contexts. inst = context*2 + (alternatives-3).
+func VH_C03_disj(vm *VM, inst int) {
+	n := 3 + inst%2
+	ctx := inst / 2
+	pos := choice("itpos", n)
+	alts := []string{"X = k0", "r(X)", "X = k2", "s(X)"}[:n]
+	alts[pos] = "( q(X) -> r(Y) )"
+	trees := c03TreesSep(alts, " ; ")
+	body := trees[choice("shape", len(trees))]
+	base := "q(k0). q(k1). r(k0). r(k1). s(k1). s(k2). o(k0). o(k1). "
+	var c vCase
+	switch ctx {
+	case 0:
+		c = vCase{name: "disj-shape-body", prog: base + "p(X, Y) :- " + body + ". p(k2, k2).", query: "o(A), p(X, Y)."}
+	case 1:
+		c = vCase{name: "disj-shape-call", prog: base, query: "o(A), call(" + body + ")."}
+	default:
+		c = vCase{name: "disj-shape-findall", prog: base, query: "findall(X-Y, " + body + ", L)."}
+	}
+	vRunCase(vm, c, "", false)
+	reach("c03/disj", true)
+}
+
 func c03Paren(s string, n int) string {
 	if n > 1 {
 		return "(" + s + ")"
